@@ -143,7 +143,8 @@ A leaf handler then only ever runs for a message whose `GetSigners()[0]` may sig
 
 def MaySign (a : Addr) : Prop := a < 1000 ∨ a = Mgov
 
-def GrantsOK (s : State) : Prop := ∀ g e k, (g, e, k) ∈ s.grants → MaySign g
+def GrantsOK (s : State) : Prop :=
+  (∀ g e k, (g, e, k) ∈ s.grants → MaySign g) ∧ (∀ g e, (g, e) ∈ s.allowances → MaySign g)
 
 def Msg.SignedOK (m : Msg) : Prop := ∃ a, m.signer = some a ∧ MaySign a
 
@@ -196,7 +197,7 @@ theorem exec_signed_aux : ∀ n, (∀ m, m.depth ≤ n → ∀ s s' r, GrantsOK 
             · unfold Msg.signerM at hgr; split at hgr <;> simp_all
             · rcases hauth with he | hc
               · rw [he]; exact hgrantee
-              · exact hg granter grantee m.kind (by simpa using hc)
+              · exact hg.1 granter grantee m.kind (by simpa using hc)
           obtain ⟨h1, hg1⟩ := ih m (by omega) s x.1 x.2 hg hsig (by cases x; exact hx)
           obtain ⟨h2, hg2⟩ := ihms (by omega) x.1 s1 hg1 hrest
           exact ⟨htrans _ _ _ h1 h2, hg2⟩
